@@ -355,10 +355,10 @@ Proof.
     rewrite (raman_gain_plain rg r' R1), (raman_gain_plain rg q R2), (elq_run_loss r' q Hq). reflexivity.
 Qed.
 
-Lemma amp_items_noamp : forall c rg opsf ptot dr prev r r' t, is_amp_run r = false ->
-  amp_items c rg opsf ptot dr prev ((r, r') :: t) = amp_items c rg opsf ptot dr (Some (r, r')) t.
+Lemma amp_items_noamp : forall c rg rgn opsf ptot dr prev r r' t, is_amp_run r = false ->
+  amp_items c rg rgn opsf ptot dr prev ((r, r') :: t) = amp_items c rg rgn opsf ptot dr (Some (r, r')) t.
 Proof.
-  intros c rg opsf ptot dr prev r r' t H. cbn [amp_items].
+  intros c rg rgn opsf ptot dr prev r r' t H. cbn [amp_items].
   destruct r as [|[f|n lo|a] [|e2 t2]]; try reflexivity. cbn in H. discriminate.
 Qed.
 Lemma pad_run_amp : forall c a r', pad_run c [Amp a] = Ok r' -> r' = [Amp a].
@@ -384,14 +384,14 @@ Definition dp_given (opsf2 : string -> ain) (q : list elem) : Prop :=
   match q with [Amp b] => exists d, i_dp (opsf2 (a_name b)) = Some d | _ => True end.
 
 (* the walk over the spans of the reloaded line meets the same amplifiers with equal span losses *)
-Lemma amp_items_rel : forall c rg opsf opsf2 ptot dr pre1 post1,
+Lemma amp_items_rel : forall c rg rgn opsf opsf2 ptot dr pre1 post1,
   Forall2 (fun r r' => pad_run c r = Ok r') pre1 post1 ->
   forall pre2 prev1 prev2 items1, Forall2 (Forall2 elq) post1 pre2 -> Forall (fun r => has_raman r = false) pre1 ->
   Forall (dp_given opsf2) pre2 -> prel c prev1 prev2 ->
-  amp_items c rg opsf ptot dr prev1 (combine pre1 post1) = Ok items1 ->
-  exists items2, amp_items c rg opsf2 ptot dr prev2 (combine pre2 pre2) = Ok items2 /\ Forall2 (irel opsf opsf2) items1 items2.
+  amp_items c rg rgn opsf ptot dr prev1 (combine pre1 post1) = Ok items1 ->
+  exists items2, amp_items c rg rgn opsf2 ptot dr prev2 (combine pre2 pre2) = Ok items2 /\ Forall2 (irel opsf opsf2) items1 items2.
 Proof.
-  intros c rg opsf opsf2 ptot dr pre1 post1 FP.
+  intros c rg rgn opsf opsf2 ptot dr pre1 post1 FP.
   induction FP as [|r r' pre1 post1 Hp _ IH]; intros pre2 prev1 prev2 items1 FQ HR HD HP H.
   - inversion FQ; subst. cbn in H. inversion H. exists []. split; [reflexivity | constructor].
   - inversion FQ as [|? q ? pre2' Hq FQ']; subst. inversion HR as [|? ? Hr HR']; subst. inversion HD as [|? ? Hd HD']; subst.
@@ -407,10 +407,10 @@ Proof.
                 | Some _ => Ok NRoadm
                 | None => match combine pre1 post1 with
                           | [] => if dr then Ok NRoadm else Err "AttributeError:target_power of a Transceiver"
-                          | (n, n') :: _ => if is_amp_run n then Ok (NLoss 0) else let* l := loss_as_next c n n' in Ok (NLoss l)
+                          | (n, n') :: _ => if is_amp_run n then Ok (NLoss 0) else let* l := loss_as_next c rgn n n' in Ok (NLoss l)
                           end
                 end) as [nx|] eqn:Enx; [|discriminate]. cbn [bind] in H.
-      destruct (amp_items c rg opsf ptot dr None (combine pre1 post1)) as [rest|] eqn:Er; [|discriminate]. cbn [bind] in H.
+      destruct (amp_items c rg rgn opsf ptot dr None (combine pre1 post1)) as [rest|] eqn:Er; [|discriminate]. cbn [bind] in H.
       inversion H; subst items1. clear H.
       destruct (IH pre2' None None rest FQ' HR' HD' I Er) as (rest2 & R1 & R2).
       cbn [amp_items]. cbn [dp_given] in Hd. destruct Hd as (d & Hd). rewrite Hd. cbn [bind]. rewrite R1. cbn [bind].
@@ -420,9 +420,9 @@ Proof.
         destruct HP as (-> & P1 & P2 & P3). apply (loss_as_prev_stable c rg p p' q P1 P2 P3).
       * exists (a_name a). split; [reflexivity|]. rewrite Nab. reflexivity.
     + (* a fibre / fused span *)
-      rewrite (amp_items_noamp c rg opsf ptot dr prev1 r r' _ Ea) in H.
+      rewrite (amp_items_noamp c rg rgn opsf ptot dr prev1 r r' _ Ea) in H.
       assert (Ea2 : is_amp_run q = false) by (rewrite (elq_is_amp r' q Hq), (pad_run_is_amp c r r' Hp); exact Ea).
-      rewrite (amp_items_noamp c rg opsf2 ptot dr prev2 q q _ Ea2).
+      rewrite (amp_items_noamp c rg rgn opsf2 ptot dr prev2 q q _ Ea2).
       apply (IH pre2' (Some (r, r')) (Some (q, q)) items1 FQ' HR' HD'); [|exact H].
       cbn [prel]. repeat split; assumption.
 Qed.
@@ -432,17 +432,17 @@ Definition amp_names (rs : list (list elem)) : list string :=
   flat_map (fun r => match r with [Amp a] => [a_name a] | _ => [] end) rs.
 Lemma amp_names_noamp : forall r rs, is_amp_run r = false -> amp_names (r :: rs) = amp_names rs.
 Proof. intros r rs H. unfold amp_names. cbn [flat_map]. destruct r as [|[f|n lo|a] [|e2 t2]]; try reflexivity. discriminate. Qed.
-Lemma amp_items_amps : forall c rg opsf ptot dr gs prev items,
-  amp_items c rg opsf ptot dr prev gs = Ok items -> map snd items = map opsf (amp_names (map fst gs)).
+Lemma amp_items_amps : forall c rg rgn opsf ptot dr gs prev items,
+  amp_items c rg rgn opsf ptot dr prev gs = Ok items -> map snd items = map opsf (amp_names (map fst gs)).
 Proof.
-  intros c rg opsf ptot dr. induction gs as [|[r r'] t IH]; intros prev items H.
+  intros c rg rgn opsf ptot dr. induction gs as [|[r r'] t IH]; intros prev items H.
   - inversion H. reflexivity.
   - destruct (is_amp_run r) eqn:Ea.
     + destruct r as [|[f|n lo|a] [|e2 t2]]; try discriminate. cbn [amp_items] in H.
       destruct (match i_dp (opsf (a_name a)) with Some _ => Ok NRoadm | None => _ end) as [nx|]; [|discriminate]. cbn [bind] in H.
-      destruct (amp_items c rg opsf ptot dr None t) as [rest|] eqn:Er; [|discriminate]. cbn [bind] in H. inversion H; subst items.
+      destruct (amp_items c rg rgn opsf ptot dr None t) as [rest|] eqn:Er; [|discriminate]. cbn [bind] in H. inversion H; subst items.
       cbn [map fst snd]. unfold amp_names. cbn [flat_map app map]. f_equal. apply (IH None rest Er).
-    + rewrite (amp_items_noamp c rg opsf ptot dr prev r r' t Ea) in H. cbn [map fst]. rewrite (amp_names_noamp r _ Ea).
+    + rewrite (amp_items_noamp c rg rgn opsf ptot dr prev r r' t Ea) in H. cbn [map fst]. rewrite (amp_names_noamp r _ Ea).
       apply (IH (Some (r, r')) items H).
 Qed.
 Lemma map_fst_combine_same : forall {A} (l : list A), map fst (combine l l) = l.
@@ -539,22 +539,22 @@ Proof. induction 1; cbn; congruence. Qed.
 (* ---------- the whole line ---------- *)
 (* EOL = 0, power mode, no Raman fibre; the designed fibres lie on the export grid; amplifier uids distinct.  Then exporting the designed line, reloading it and designing it again gives
    a line whose export is the same document: elements (fibres, fused, amplifiers) and amplifier settings. *)
-Theorem redesign_line_fixpoint : forall c s lib sel rgain opsf D0 ptot x L1 outs1,
+Theorem redesign_line_fixpoint : forall c s lib sel rgain rgn opsf D0 ptot x L1 outs1,
   pm_ok s lib -> (c_eol c == 0)%Q -> c_min c <= c_max c -> no_auto (l_els x) -> (forall n, i_name (opsf n) = n) ->
-  design_full c s lib sel rgain opsf D0 ptot x = Ok (L1, outs1) ->
+  design_full c s lib sel rgain rgn opsf D0 ptot x = Ok (L1, outs1) ->
   l_els L1 <> [] -> Forall grid_ok (l_els L1) ->
   has_raman (l_els L1) = false -> NoDup (map o_name outs1) ->
-  exists r2, design_full c s lib sel rgain (ops_of (snd (export_full (L1, outs1)))) D0 ptot
+  exists r2, design_full c s lib sel rgain rgn (ops_of (snd (export_full (L1, outs1)))) D0 ptot
                          (reload_full x (export_full (L1, outs1))) = Ok r2 /\
              export_full r2 = export_full (L1, outs1).
 Proof.
-  intros c s lib sel rgain opsf D0 ptot x L1 outs1 Hok H0 Hc Hna Hops H Hne Hg Hr ND.
+  intros c s lib sel rgain rgn opsf D0 ptot x L1 outs1 Hok H0 Hc Hna Hops H Hne Hg Hr ND.
   pose proof Hok as (Hpm & _ & _).
   unfold design_full in H.
   destruct (add_missing c x) as [l1|] eqn:E1; [|discriminate]. cbn [bind] in H.
   set (els1 := conn c (l_els l1)) in *.
   destruct (pad_chain c els1) as [p1|] eqn:E2; [|discriminate]. cbn [bind] in H.
-  destruct (design_line_amps c s lib sel rgain opsf D0 ptot (match l_dk x with Roadm => true | Trx => false end) els1)
+  destruct (design_line_amps c s lib sel rgain rgn opsf D0 ptot (match l_dk x with Roadm => true | Trx => false end) els1)
     as [outs|] eqn:E3; [|discriminate]. cbn [bind] in H. inversion H; subst L1 outs1. clear H.
   cbn [l_els with_els] in *.
   assert (DL : design_line c x = Ok (with_els l1 p1)).
@@ -566,7 +566,7 @@ Proof.
   (* round 1, amplifier side *)
   unfold design_line_amps in E3.
   destruct (mapM (pad_run c) (runs els1)) as [post1|] eqn:EM; [|discriminate]. cbn [bind] in E3.
-  destruct (amp_items c rgain opsf ptot (match l_dk x with Roadm => true | Trx => false end) None (combine (runs els1) post1))
+  destruct (amp_items c rgain rgn opsf ptot (match l_dk x with Roadm => true | Trx => false end) None (combine (runs els1) post1))
     as [items1|] eqn:EI; [|discriminate]. cbn [bind] in E3.
   destruct (pad_chain_runs c els1 p1 E2) as (rs & EM' & _ & Er & _). rewrite EM in EM'. injection EM' as EM'. subst rs.
   pose proof (mapM_ok _ _ _ EM) as FP.
@@ -581,7 +581,7 @@ Proof.
   assert (EN2 : amp_names (runs els2) = N).
   { rewrite (amp_names_elq _ _ FQ), (amp_names_pad c _ _ FP). reflexivity. }
   assert (ES1 : map snd items1 = map opsf N).
-  { rewrite (amp_items_amps _ _ _ _ _ _ _ _ EI), (map_fst_combine (runs els1) post1 (Forall2_length _ _ _ FP)). reflexivity. }
+  { rewrite (amp_items_amps _ _ _ _ _ _ _ _ _ EI), (map_fst_combine (runs els1) post1 (Forall2_length _ _ _ FP)). reflexivity. }
   assert (EO : map o_name outs = N).
   { rewrite (design_amps_names _ _ _ _ _ _ E3), <- (map_map snd i_name), ES1, map_map.
     rewrite (map_ext _ (fun n => n) Hops). apply map_id. }
@@ -594,10 +594,10 @@ Proof.
     unfold opsf2. rewrite ops_of_lookup; [|rewrite map_map; exact ND | apply in_map; exact Ho2].
     pose proof (design_amps_dp _ _ _ _ _ _ Hpm E3) as Hdp. rewrite Forall_forall in Hdp. destruct (Hdp o Ho2) as (d & Hd).
     cbn [export_amp i_dp]. rewrite Hd. cbn. eauto. }
-  destruct (amp_items_rel c rgain opsf opsf2 ptot (match l_dk x with Roadm => true | Trx => false end) _ _ FP
+  destruct (amp_items_rel c rgain rgn opsf opsf2 ptot (match l_dk x with Roadm => true | Trx => false end) _ _ FP
               (runs els2) None None items1 FQ HR1 HD I EI) as (items2 & EI2 & IR).
   assert (ES2 : map snd items2 = map export_amp outs).
-  { rewrite (amp_items_amps _ _ _ _ _ _ _ _ EI2), map_fst_combine_same, EN2. exact EX. }
+  { rewrite (amp_items_amps _ _ _ _ _ _ _ _ _ EI2), map_fst_combine_same, EN2. exact EX. }
   assert (IR' : Forall2 (fun i1 i2 => (x_loss (fst i2) == x_loss (fst i1))%Q /\ (x_ptot (fst i2) == x_ptot (fst i1))%Q) items1 items2).
   { eapply F2_impl; [|exact IR]. intros a b (A1 & A2 & _). split; [exact A1 | rewrite A2; reflexivity]. }
   destruct (design_amps_fix_ctx s lib sel items1 items2 D0 D0 outs Hok (Qeq_refl D0) E3 IR' ES2) as (outs' & EO1 & EO2).
@@ -617,7 +617,7 @@ Definition exl_line : line :=
   mkLine Roadm "A" 1 Roadm "B" true
     [Fib (mkFib "f1" false (inject_Z 80000) (1 # 5000) None None 0 []); Fib (mkFib "f2" false (inject_Z 30000) (1 # 5000) None (Some (1 # 2)) 0 [])].
 Example exl_hyps : exists L1 outs1,
-  design_full exl_cfg ex_s ex_lib ex_sel (fun _ => 0%Q) (ops_of []) (-20) (198 # 10) exl_line = Ok (L1, outs1) /\
+  design_full exl_cfg ex_s ex_lib ex_sel (fun _ => 0%Q) (fun _ => 0%Q) (ops_of []) (-20) (198 # 10) exl_line = Ok (L1, outs1) /\
   pm_ok ex_s ex_lib /\ (c_eol exl_cfg == 0)%Q /\ c_min exl_cfg <= c_max exl_cfg /\ no_auto (l_els exl_line) /\
   (forall n, i_name (ops_of [] n) = n) /\
   l_els L1 <> [] /\ Forall grid_ok (l_els L1) /\
